@@ -1,3 +1,4 @@
+use super::error::SyntaxError;
 use crate::error::*;
 use either::Either;
 use std::{fmt::Display, iter::FromIterator, mem};
@@ -156,7 +157,10 @@ impl<T: Pairable> GenericPair<T> {
         self.pop()
             .map(|item| match item {
                 PairPopItem::Proper(t) => Ok(t),
-                PairPopItem::Improper(_, _) => todo!(),
+                PairPopItem::Improper(_, _) => error!(SyntaxError::ExpectSomething(
+                    "proper list".to_string(),
+                    "improper list".to_string(),
+                )),
             })
             .transpose()
     }
@@ -181,7 +185,10 @@ impl<T: Pairable> GenericPair<T> {
     ) -> Result<Self, SchemeError> {
         match T::from_pair_iter(iter.into_iter()).into_pair() {
             Either::Left(pair) => Ok(pair),
-            Either::Right(_) => todo!(),
+            Either::Right(_) => error!(SyntaxError::ExpectSomething(
+                "list".to_string(),
+                "non-list".to_string(),
+            )),
         }
     }
 
